@@ -1,6 +1,7 @@
 import Driver.Pure
 import Driver.Project
 import Driver.Run
+import Driver.CacheOp
 /-! Line-protocol driver: one JSON request per line in, one JSON answer per line out. -/
 open Lean Laze
 
@@ -15,6 +16,7 @@ def dispatch (j : Json) : Json :=
   | "is_allowed" => handleIsAllowed j
   | "gen" => handleGen j
   | "run" => handleRun j
+  | "cache" => handleCache j
   | op => Json.mkObj [("bad", "unknown op " ++ op)]
 
 partial def loop (h : IO.FS.Stream) (out : IO.FS.Stream) : IO Unit := do
